@@ -351,6 +351,13 @@ func c20LogEval(f []string) (string, []string) {
 			do(i)
 		}
 	}
+	if ts != nil {
+		// Over a real connection the client has the whole response (Content-Length reached) while the
+		// server-side handler chain may still be running: Logger.ServeHTTP writes its lines only after
+		// the inner handler has returned.  Close() blocks until every outstanding request on the test
+		// server has completed, i.e. until every handler has returned; only then are the logs read.
+		ts.Close()
+	}
 
 	// read the logs back
 	per := make([]string, len(dirs))
